@@ -34,13 +34,17 @@ func TestMain(m *testing.M) {
 	code := pbt.Main(m, pbt.Meta{
 		Property: "C16",
 		Level:    "exploration",
-		Rule: "base state of two graphs (fresh valid names, optionally one a prefix of the other) with 1-3 vertices and 0-3 edges built through benign calls, then 1-2 write calls (AddGraph, AddVertex, AddEdge, BulkAdd of one element with an optional benign companion) in which one or two of graph name / vertex id / edge id / label / from / to / property name / property value are hostile: fragments 0x00, the key-family letters v e s d g i t f D, '.', the words label v e __schema__ __mapping__ __current__, leading _ - $, whitespace, control bytes, combining/RTL/astral unicode, 1-4 kB strings, the empty string, strings that extend / truncate / are prefixed by an existing id or graph name (with and without 0x00 between), invalid UTF-8 (gdbi level only); JSON values nested up to depth 6, empty containers, +-MaxFloat64, denormals, -0, integers beyond 2^53, long strings, NUL inside strings, odd keys. Executed (i) through the gRPC Edit/Query clients of a live in-process GripServer and (ii) on the gdbi interface of kvgraph/Badger. Oracle: abstract model that applies the write iff the call reported success; after every write the full observation (lookup by id, listings, adjacency in both directions with label filters, label listings, label scans, V()/E()/V(id)/E(id)/hasLabel/outE/inE/out/in traversals, ListLabels, ListGraphs) of every graph in play (base graphs, the written graph name, its truncations at every 0x00) over a per-case universe (base ids + hostile strings + their truncations at every 0x00) must equal the model's. " +
+		Rule: "base state of two graphs (fresh valid names, optionally one a prefix of the other) with 1-3 vertices and 0-3 edges built through benign calls, then 1-2 write calls (AddGraph, AddVertex, AddEdge, BulkAdd of one element with an optional benign companion, AddIndex optionally followed by a vertex of the indexed label with a hostile value under the indexed field) in which one or two of graph name / vertex id / edge id / label / from / to / property name / property value / index label / index field are hostile: fragments 0x00, the key-family letters v e s d g i t f D, '.', the words label v e __schema__ __mapping__ __current__, leading _ - $, whitespace, control bytes, combining/RTL/astral unicode, 1-4 kB strings, the empty string, strings that extend / truncate / are prefixed by an existing id or graph name (with and without 0x00 between, several 0x00 in a row), invalid UTF-8 (gdbi level only); JSON values nested up to depth 6, empty containers, +-MaxFloat64, denormals, -0, integers beyond 2^53, long strings, NUL inside strings, odd keys. Executed (i) through the gRPC Edit/Query clients of a live in-process GripServer and (ii) on the gdbi interface of kvgraph/Badger; plus a fixed list of minimal cases per expected defect at both levels and a crash confirmation in a child process. Oracle: abstract model that applies the write iff the call reported success; after every write the observation (lookup by id, listings, adjacency in both directions with label filters, label listings, label scans, V()/E()/V(id)/E(id)/hasLabel/outE/inE/out/in traversals, ListLabels, ListIndices, ListGraphs) of every graph in play (base graphs, the written graph name, its truncations at every 0x00) over a per-case universe (base ids + hostile strings + their truncations at every 0x00) must equal the model's where the model says the write affects it, and must be what it was before the write elsewhere. " +
 			"Non-trivial: a hostile component contains a separator or reserved token (0x00, '.', label, v, e, a key-family letter, __schema__, __mapping__, __current__) and the call was accepted, or the call was rejected while a neighbour differing in one byte of that component is accepted; distinct = level + rendered writes.",
 		Assumptions: []string{
 			"a refusal is always allowed by the property: which inputs must be accepted is not judged (only that a refused call changes nothing)",
 			"every element of a BulkAdd stream is a write of its own: the hostile element counts as refused iff the call reported an error (gdbi) / a non-zero error count (server); a benign companion sent before it must be stored either way",
 			"numbers are compared as float64 (0 equals -0); property names and string values are valid UTF-8 (they are JSON), ids/labels/graph names may be arbitrary bytes at the gdbi level only (gRPC refuses invalid UTF-8 before the server sees it)",
-			"an accepted edge whose stored key makes kvgraph.EdgeKeyParse index out of range (empty 7th key component) is reported without reading the graph back, because the read would kill the process; TestConfirmCrash shows the crash in a child process",
+			"the server assigns an id to an edge sent without one (documented): empty edge ids are generated at the gdbi level only",
+			"reads that probe with an id/label/name containing 0x00 are judged only once a write containing 0x00 was accepted in the case: identifiers no write call accepts are outside the property (before that such reads can match other elements' keys by prefix; counted as baseline-read-anomaly / unjudged-nul-probe)",
+			"an accepted edge whose stored key makes kvgraph.EdgeKeyParse index out of range (empty 7th key component) is reported without reading the graph back, because the read would kill the process (counted as avoided); TestConfirmCrash shows the crash in a child process; a refused bulk element with such a key is counted inconclusive (the bulk stream is flushed despite the error)",
+			"before the first write the benign base is read back only when the case probes with 0x00 or lists indices; otherwise it is assumed to be what the model says (C03 checks that)",
+			"index fields are plain property paths (no leading $, _ or data.), suffixed per case because the index listing of a shared store is not isolated per graph",
 			"writing into a graph that was never created must be refused",
 		},
 	})
@@ -941,6 +945,7 @@ func runCase(t pbt.TB, c Case) {
 		}
 		if accepted && crashShape(w) {
 			pbt.Class(t, "result:accepted-crash-shape")
+			pbt.Avoided("C16-nul-crash:graph-not-read-back-after-accepted-crash-shaped-key")
 			disc(signature(w, "unparseable-key-stored"), "%s was accepted, but the key it stores has an empty 7th component: kvgraph.EdgeKeyParse/SrcEdgeKeyParse/DstEdgeKeyParse index out of range on it inside a goroutine (listing or adjacency reads of this graph kill the process; see TestConfirmCrash)", where)
 			return // reading this graph back would kill the process
 		}
